@@ -41,6 +41,81 @@ example : inD
     (.doc [("a", .arr [.doc [("b", .int 3)], .doc [("b", .int 7)]]), ("c", .str "y"), ("d", .int 5)])
     = true := by decide +kernel
 
+/-! ### Former exclusion classes, now inside D
+
+The library defects behind the classes `ext:$all` (an empty `$all` selected everything, a null
+item of `$all` missed a missing field), `ext:$size` (`$size` applied to scalars and
+sub-documents), `emptydocoperand`, `nullorder` and `deadend` are repaired (known_findings.json,
+status "fixed"); `$all`, `$size`, the empty sub-document operand, ordering against null and paths
+that run into a scalar are part of D, so `matches_eq_spec_partial` covers them.  The former witnesses of these findings, as
+positive examples: each lies in D and the matcher now answers what the rules say. -/
+
+/-- `{a: {$all: []}}` selects nothing (it selected `{a: -1}`). -/
+example :
+    inD (.doc [("a", .doc [("$all", .arr [])])]) (.doc [("a", .int (-1))]) = true ∧
+    filterApplies (.doc [("a", .doc [("$all", .arr [])])]) (.doc [("a", .int (-1))]) = .ok false ∧
+    specMatches (.doc [("a", .doc [("$all", .arr [])])]) (.doc [("a", .int (-1))]) = .ok false := by
+  decide +kernel
+
+/-- `{a: {$all: [null]}}` selects a document without `a` (it did not). -/
+example :
+    inD (.doc [("a", .doc [("$all", .arr [.null])])]) (.doc []) = true ∧
+    filterApplies (.doc [("a", .doc [("$all", .arr [.null])])]) (.doc []) = .ok true ∧
+    specMatches (.doc [("a", .doc [("$all", .arr [.null])])]) (.doc []) = .ok true := by
+  decide +kernel
+
+/-- `$all` over the elements of an array value and over several reached scalars is in D. -/
+example :
+    inD (.doc [("a.b", .doc [("$all", .arr [.int 1, .str "x"])])])
+      (.doc [("a", .arr [.doc [("b", .int 1)], .doc [("b", .str "x")], .doc []])]) = true ∧
+    inD (.doc [("a", .doc [("$not", .doc [("$all", .arr [.int 1, .int 3])])])])
+      (.doc [("a", .arr [.int 1, .int 2])]) = true := by
+  decide +kernel
+
+/-- `{a: {$size: 1}}` does not select `{a: "ba"}` (it did: a truthy scalar counted as one). -/
+example :
+    inD (.doc [("a", .doc [("$size", .int 1)])]) (.doc [("a", .str "ba")]) = true ∧
+    filterApplies (.doc [("a", .doc [("$size", .int 1)])]) (.doc [("a", .str "ba")]) = .ok false ∧
+    specMatches (.doc [("a", .doc [("$size", .int 1)])]) (.doc [("a", .str "ba")]) = .ok false := by
+  decide +kernel
+
+/-- `{a: {}}` does not select `{}` (it did), it selects `{a: {}}` and `{a: [{}]}`. -/
+example :
+    inD (.doc [("a", .doc [])]) (.doc []) = true ∧
+    filterApplies (.doc [("a", .doc [])]) (.doc []) = .ok false ∧
+    specMatches (.doc [("a", .doc [])]) (.doc []) = .ok false ∧
+    filterApplies (.doc [("a", .doc [])]) (.doc [("a", .doc [])]) = .ok true ∧
+    filterApplies (.doc [("a", .doc [])]) (.doc [("a", .arr [.doc []])]) = .ok true := by
+  decide +kernel
+
+/-- `{c: {$lte: null}}` selects a document without `c` (it did not). -/
+example :
+    inD (.doc [("c", .doc [("$lte", .null)])]) (.doc [("a", .int 2)]) = true ∧
+    filterApplies (.doc [("c", .doc [("$lte", .null)])]) (.doc [("a", .int 2)]) = .ok true ∧
+    specMatches (.doc [("c", .doc [("$lte", .null)])]) (.doc [("a", .int 2)]) = .ok true := by
+  decide +kernel
+
+/-- `{'a.b': null}` selects `{a: 5}` (it did not: the path dead-ended in the scalar and the
+    matcher saw no candidate at all).  Since the repair the matcher reaches exactly the values
+    the rules say a path reaches (`Proofs.C01Lemmas.cands_eq_reach`), and the class `deadend` is
+    gone from D. -/
+example :
+    inD (.doc [("a.b", .null)]) (.doc [("a", .int 5)]) = true ∧
+    filterApplies (.doc [("a.b", .null)]) (.doc [("a", .int 5)]) = .ok true ∧
+    specMatches (.doc [("a.b", .null)]) (.doc [("a", .int 5)]) = .ok true ∧
+    inD (.doc [("a.b", .doc [("$exists", .bool false)])]) (.doc [("a", .null)]) = true ∧
+    filterApplies (.doc [("a.b", .doc [("$exists", .bool false)])]) (.doc [("a", .null)]) = .ok true := by
+  decide +kernel
+
+/-- `$elemMatch` stays outside D (a scope limit, no longer a known finding): its former witness
+    `{c: {$elemMatch: {$size: 1}}}` on `{c: ["b", 2]}` went away with the `$size` repair. -/
+example :
+    filterApplies (.doc [("c", .doc [("$elemMatch", .doc [("$size", .int 1)])])])
+      (.doc [("c", .arr [.str "b", .int 2])]) = .ok false ∧
+    specMatches (.doc [("c", .doc [("$elemMatch", .doc [("$size", .int 1)])])])
+      (.doc [("c", .arr [.str "b", .int 2])]) = .ok false := by
+  decide +kernel
+
 /-! ### Laws that hold for every input (no domain hypothesis) -/
 
 /-- `$ne` holds exactly when `$eq` does not — for every key, operand and document. -/
@@ -78,6 +153,23 @@ theorem or_is_disj (qs : List Val) (d : Val) (bs : List Bool)
 theorem nor_is_neg_disj (qs : List Val) (d : Val) (bs : List Bool)
     (h : qs.map (applyVal · d) = bs.map .ok) : norApply qs d = .ok (!(bs.any id)) :=
   Proofs.C01.nor_is_neg_disj qs d bs h
+
+/-- Path traversal: whenever the matcher follows a dotted path (it gives up only on a negative
+    array index) it reaches exactly the values the rules say the path reaches — a branch that
+    runs into null or a scalar counts as a missing field.  (False before the `deadend` repair:
+    `a.b` reached nothing in `{a: 5}`.) -/
+theorem path_reaches_spec (ps : List String) (d : Val) (cs : List (Option Val))
+    (h : cands ps d = .ok cs) : cs = reach ps d :=
+  Proofs.C01.cands_eq_reach ps d cs h
+
+example :
+    (match cands ["a", "b"] (.doc [("a", .arr [.doc [("b", .int 1)], .int 5, .doc [("b", .null)],
+        .doc [("c", .int 2)]])]) with
+     | .ok cs => cs == [some (.int 1), some .null, none]
+     | .error _ => false) = true ∧
+    (match cands ["a", "b"] (.doc [("a", .int 5)]) with
+     | .ok cs => cs == [none]
+     | .error _ => false) = true := by decide +kernel
 
 /-- Equality to null also matches a missing field. -/
 theorem null_eq_missing (key : String) (d : Val) (h : candsKey key d = .ok [none]) :
